@@ -207,9 +207,12 @@ type c02Dev struct {
 	Action             string // delete, recreate, foreign-owner, clear-owners, relabel
 	Target             string // kind/name
 	Boundary2, Action2 string
+	// Before: the environment acts just before the n-th request with this identity ("verb resource ns/name#n") -
+	// the order in which the controller visits its children is not fixed, a request's identity is
+	Before string
 }
 
-var c02Actions = []string{"delete", "recreate", "foreign-owner", "clear-owners", "relabel"}
+var c02Actions = []string{"delete", "recreate", "recreate-nomatch", "foreign-owner", "clear-owners", "relabel"}
 
 func (x *c02World) act(action string, k *sim.Kind, name string, locked bool) bool {
 	edit := x.Sim.Edit
@@ -231,6 +234,16 @@ func (x *c02World) act(action string, k *sim.Kind, name string, locked bool) boo
 		remove(k, "n1", name)
 		n := kit.Obj(k, "n1", name)
 		kit.Labels(n, "app", "x")
+		kit.Field(n, "someone-else", "spec", "v")
+		seed(n)
+	case "recreate-nomatch":
+		// a different object under the same name, which the parent's selector does not select
+		if get(k, "n1", name) == nil {
+			return false
+		}
+		remove(k, "n1", name)
+		n := kit.Obj(k, "n1", name)
+		kit.Labels(n, "app", "not-yours")
 		kit.Field(n, "someone-else", "spec", "v")
 		seed(n)
 	case "foreign-owner":
@@ -402,7 +415,11 @@ func TestVerifC02(t *testing.T) {
 		}{{kit.Leaf, "a"}, {kit.Leaf, "b"}, {kit.Widget, "c"}, {kit.Leaf, "d"}, {kit.Leaf, "e"}, {kit.Leaf, "g"}, {kit.Leaf, "f"}, {kit.Leaf, "h"}}
 		run := func(dev c02Dev, plan func(x *c02World, n *int) func(q *sim.Request) *sim.Fault, pre func(x *c02World)) {
 			idx++
-			if !mc.Mine(idx) {
+			if dev.Before != "" {
+				if !mc.MineKey(fmt.Sprintf("%+v", dev)) {
+					return
+				}
+			} else if !mc.Mine(idx) {
 				return
 			}
 			r.Case(dev, fmt.Sprint(idx), func() []mc.Finding {
@@ -472,7 +489,46 @@ func TestVerifC02(t *testing.T) {
 				}
 			}
 		}
-		r.Infof("ssa=%v: %d requests in the base sync, %d boundaries x %d actions x %d targets", ssa, nreq, nreq+1, len(c02Actions), len(targets))
+		// ... and every action on the target of a request just before that very request (whatever position it has
+		// in this run: the controller visits its children in map order)
+		ids := identN(base.Sim.Log)
+		byID := map[string]*sim.Request{}
+		for i, id := range ids {
+			byID[id] = base.Sim.Log[i]
+		}
+		nIdent := 0
+		for _, id := range mc.SortedKeys(byID) {
+			q := byID[id]
+			var tg *struct {
+				k    *sim.Kind
+				name string
+			}
+			for i := range targets {
+				if targets[i].k == q.Kind && targets[i].name == q.Name && q.NS == "n1" {
+					tg = &targets[i]
+				}
+			}
+			if tg == nil {
+				continue
+			}
+			for _, action := range c02Actions {
+				ident, act, tgt := id, action, *tg
+				nIdent++
+				run(c02Dev{SSA: ssa, Boundary: -2, Action: act, Target: tgt.k.Resource + "/" + tgt.name, Before: ident}, func(x *c02World, n *int) func(q *sim.Request) *sim.Fault {
+					seen := map[string]int{}
+					return func(q *sim.Request) *sim.Fault {
+						gid := q.Ident()
+						seen[gid]++
+						if fmt.Sprintf("%s#%d", gid, seen[gid]) == ident {
+							x.act(act, tgt.k, tgt.name, true)
+							q.Pre = x.Sim.GetLocked(tgt.k, "n1", tgt.name)
+						}
+						return nil
+					}
+				}, nil)
+			}
+		}
+		r.Infof("ssa=%v: %d requests in the base sync, %d boundaries x %d actions x %d targets + %d (request identity x action on its target)", ssa, nreq, nreq+1, len(c02Actions), len(targets), nIdent)
 		if mc.Thorough() {
 			c02Pairs(r, ssa, nreq, &idx)
 		}
